@@ -43,8 +43,51 @@ type Cron struct {
 	location  *time.Location
 	parser    ScheduleParser
 	nextID    EntryID
-	jobWaiter sync.WaitGroup
+	jobWaiter jobWaiter
 	clk       clock.Clock
+}
+
+// jobWaiter counts the running jobs. Unlike a sync.WaitGroup it may be waited on
+// while jobs are still being added: a Cron that is stopped and started again
+// keeps launching jobs while the goroutine behind an earlier Stop is waiting
+// (a WaitGroup panics with "WaitGroup is reused before previous Wait has returned").
+type jobWaiter struct {
+	mu      sync.Mutex
+	n       int
+	waiters []chan struct{}
+}
+
+// Add registers delta more running jobs.
+func (w *jobWaiter) Add(delta int) {
+	w.mu.Lock()
+	w.n += delta
+	w.mu.Unlock()
+}
+
+// Done marks one job as returned and releases every waiter when none is left.
+func (w *jobWaiter) Done() {
+	w.mu.Lock()
+	w.n--
+	if w.n == 0 {
+		for _, ch := range w.waiters {
+			close(ch)
+		}
+		w.waiters = nil
+	}
+	w.mu.Unlock()
+}
+
+// Wait blocks until no job is running.
+func (w *jobWaiter) Wait() {
+	w.mu.Lock()
+	if w.n == 0 {
+		w.mu.Unlock()
+		return
+	}
+	ch := make(chan struct{})
+	w.waiters = append(w.waiters, ch)
+	w.mu.Unlock()
+	<-ch
 }
 
 // ScheduleParser is an interface for schedule spec parsers that return a Schedule
